@@ -154,9 +154,11 @@ ContentLivesUntilLastName ==
             /\ (i \in DOMAIN st'.blob => st'.blob[i] = st.blob[i])]_vars
 GenMonotone == [][st'.gen >= st.gen \/ st'.phase = "uninit"]_vars
 IsReopen == h' # h /\ h'[Len(h')].a = "Reopen"
+\* a reopen shows the same names, kinds, flags, targets and contents (inode numbers may change)
+Shape3(s, ns) == <<ns, [p \in DOMAIN Tree(s, ns) |->
+                         LET e == Tree(s, ns)[p] IN <<e.k, e.h, e.t, IF e.ino = 0 THEN "" ELSE s.blob[e.ino]>>]>>
 ReopenPreservesView ==
-    [][IsReopen => /\ st'.iso = st.iso /\ st'.jol = st.jol /\ st'.udf = st.udf
-                   /\ st'.blob = st.blob /\ st'.elt = st.elt]_vars
+    [][IsReopen => {Shape3(st', ns) : ns \in NSs} = {Shape3(st, ns) : ns \in NSs}]_vars
 \* removing one link removes exactly one name; removing a file removes exactly its link class
 IsAct(n) == h' # h /\ h'[Len(h')].a = n /\ nref' = nref
 AllNames(s) == {<<ns, p>> \in NSs \X (DOMAIN s.iso \cup DOMAIN s.jol \cup DOMAIN s.udf) : p \in DOMAIN Tree(s, ns)}
@@ -179,8 +181,9 @@ ActionProps ==
                   /\ (i \notin DOMAIN st'.blob => ~Live(st', i))
                   /\ (i \in DOMAIN st'.blob => st'.blob[i] = st.blob[i]), "ContentLivesUntilLastName")
     /\ Holds(st'.gen >= st.gen \/ st'.phase = "uninit", "GenMonotone")
-    /\ Holds(IsReopen => /\ st'.iso = st.iso /\ st'.jol = st.jol /\ st'.udf = st.udf
-                          /\ st'.blob = st.blob /\ st'.elt = st.elt, "ReopenPreservesView")
+    /\ Holds(IsReopen => /\ TRUE
+                          /\ {Shape3(st', ns) : ns \in NSs} = {Shape3(st, ns) : ns \in NSs}
+                          /\ st'.elt = st.elt, "ReopenPreservesView")
     /\ Holds(IsAct("RmHardLink") => LET a == h'[Len(h')] IN AllNames(st') = AllNames(st) \ {<<a.ns, a.p>>},
              "RmHardLinkRemovesOneName")
     /\ Holds(IsAct("RmFile") =>
